@@ -238,6 +238,16 @@ func cmdCheck(args []string) int {
 					break
 				}
 			}
+			if !confirmed {
+				for ri, body := range v.Fn.Con.ReplayGo {
+					rr := w.replayGo(v.Fn, body)
+					extra[fmt.Sprintf("replay_go_%d", ri)] = rr
+					if rr.Confirmed {
+						confirmed = true
+						break
+					}
+				}
+			}
 		}
 		violate(o.Name, "obligation not discharged ("+v.Status+")", confirmed, extra)
 	}
